@@ -62,7 +62,7 @@ RULE = (
     "has values to override, each with the flag on and off. A case is distinct by its full "
     "input tuple and non-trivial when at least one slot is unspecified or the outcome is an error. "
     "Route stream: a stratified sample of every block (incl. flag-on cases) is turned into atoms (z>0 -> real atom Z=z, 0 -> ghost atom of "
-    "varying Z) and sent, as ONE call sequence sharing the caller's argument objects, in shuffled order through from_arrays, from_input_arrays, "
+    "varying Z) and sent, as ONE call sequence sharing the caller's argument objects, in shuffled order through validate_and_fill_chgmult itself, from_arrays, from_input_arrays, "
     "from_arrays(domain='qmvz'), Molecule(**schema) and (when expressible) psi4 text via from_string / Molecule.from_data, in one of four "
     "spellings of the arguments (ints, float-typed, wholly-unspecified lists omitted, numpy/tuple containers); per call: rules, error class, "
     "== direct call, repeat call (optionally after a call with the other flag), completed assignment fed back through the same route."
@@ -464,7 +464,7 @@ def route_cases_through_from_arrays(ctx, out: Outcome, cases):
 # the very same argument objects, also after an intervening call with the other flag), and the completed assignment
 # fed back through the same route is returned unchanged.
 GHOST_Z = [2, 1, 3, 10, 7, 18]  # atomic numbers given to ghost atoms (their electrons must not count)
-FLAG_ROUTES = ["from_arrays", "from_input_arrays", "from_arrays_qmvz"]  # accept zero_ghost_fragments
+FLAG_ROUTES = ["direct", "from_arrays", "from_input_arrays", "from_arrays_qmvz"]  # accept zero_ghost_fragments ("direct" = validate_and_fill_chgmult itself on the caller's own list objects)
 PLAIN_ROUTES = ["molecule", "from_string", "molecule_from_string"]  # never zero ghosts (flag is not reachable)
 N_FORMS = 4
 FIELDS = ["molecular_charge", "fragment_charges", "molecular_multiplicity", "fragment_multiplicities"]
@@ -542,7 +542,14 @@ def route_call(route, a, zgf, case):
 
     try:
         with contextlib.redirect_stdout(io.StringIO()):
-            if route == "from_arrays":
+            if route == "direct":
+                # the function itself, handed the caller's OWN containers (call_impl, the reference, always passes copies)
+                zeff = np.array([float(z) * (1.0 if r else 0.0) for z, r in zip(np.asarray(a["zs"]).tolist(), np.asarray(a["real"]).tolist())])
+                nfr = len(a["seps"]) + 1
+                rec = qcel.molparse.validate_and_fill_chgmult(
+                    zeff, a["seps"], a["c"], a["fc"] if a["fc"] is not None else [None] * nfr, a["m"],
+                    a["fm"] if a["fm"] is not None else [None] * nfr, zero_ghost_fragments=zgf, verbose=0)
+            elif route == "from_arrays":
                 rec = qcel.molparse.from_arrays(
                     geom=a["geom"], elez=a["zs"], real=a["real"], fragment_separators=a["seps"], units="Bohr",
                     molecular_charge=a["c"], fragment_charges=a["fc"], molecular_multiplicity=a["m"],
@@ -636,6 +643,7 @@ def routes_on_case(ctx, out: Outcome, case, form, order_seed, only=None):
     lrng.shuffle(routes)
     a = build_args(case, form)
     before = _snapshot(a)
+    before_spec = _snapshot({k: a[k] for k in ("c", "fc", "m", "fm")})
     direct = {}
     for flag in {f for _, f in routes}:
         direct[flag] = canon_impl(call_impl(frags, c, fc, m, fm, flag))
@@ -674,6 +682,12 @@ def routes_on_case(ctx, out: Outcome, case, form, order_seed, only=None):
             route_call(route, a, not flag, (frags, c, fc, m, fm, not flag))
         again = canon_impl(route_call(route, a, flag, ecase)) if recheck else cv
         out.evaluations += int(recheck)
+        if _snapshot({k: a[k] for k in ("c", "fc", "m", "fm")}) != before_spec:
+            # "keeps every value the caller supplied" / "the same input always yields the same answer": the specification the caller
+            # holds must still be the one it passed — a completion that edits the caller's containers changes every later call on them
+            out.violations.append(Finding("oracle:route_arguments_modified", where(route, flag), observed=_snapshot({k: a[k] for k in ("c", "fc", "m", "fm")})[:400], expected=before_spec[:400],
+                                          detail=f"{route} modified the caller's argument objects (zero_ghost_fragments={flag})"))
+            a = build_args(case, form)
         if again != cv:
             out.violations.append(Finding("oracle:route_determinism", where(route, flag), observed=again, expected=cv,
                                           detail=f"{route} called again with the same argument objects answers differently" + ("" if _snapshot(a) == before else " (the caller's arguments were modified)")))
